@@ -19,7 +19,7 @@ import (
 
 // ---- atom operation alphabet and its sequential specification -----------------
 
-type atomSt struct{ a, b int }
+type atomSt struct{ a, b, k int } // k: the element of the list held by atom k
 
 type atomOp struct {
 	name string
@@ -44,6 +44,10 @@ var atomOps = []atomOp{
 	{"pr-str", func(c int) string { return "(pr-str a)" }, func(s atomSt, c, k int) (atomSt, string) { return s, fmt.Sprintf("%q", "«atom "+iv(s.a)+"»") }, false},
 	{"swap!-b-updates-a", func(c int) string { return fmt.Sprintf("(swap! b (fn [x] (t! %d) (swap! a inc) x))", c) }, func(s atomSt, c, k int) (atomSt, string) { s.a += k; return s, iv(s.b) }, true},
 	{"deref-b", func(c int) string { return "@b" }, func(s atomSt, c, k int) (atomSt, string) { return s, iv(s.b) }, false},
+	// an update function that keeps its rest-argument list (stores it in atom k): what it kept
+	// must stay what it was, whatever swap! does with its argument vector afterwards
+	{"swap!-keeps-rest-args", func(c int) string { return fmt.Sprintf("(swap! a (fn [x & more] (t! %d) (reset! k more) x) %d)", c, c) }, func(s atomSt, c, k int) (atomSt, string) { return s, iv(s.a) }, true},
+	{"first-of-k", func(c int) string { return "(first @k)" }, func(s atomSt, c, k int) (atomSt, string) { return s, iv(s.k) }, false},
 }
 
 type histOp struct {
@@ -56,7 +60,7 @@ type histOp struct {
 type c09state struct {
 	inner  map[int]int // op constant -> how many times its update function ran
 	scope  types.EnvType
-	a, b   *concurrent.Atom
+	a, b, k *concurrent.Atom
 	clock  int
 	hist   []*histOp
 	plan   [][]int
@@ -76,7 +80,7 @@ type linEvent struct {
 
 var linCache = map[string]bool{}
 
-func linearizable(hist []*histOp, finalA, finalB int, innerRuns map[int]int) (bool, string) {
+func linearizable(hist []*histOp, finalA, finalB, finalK int, innerRuns map[int]int) (bool, string) {
 	var kb strings.Builder
 	for _, h := range hist {
 		fmt.Fprintf(&kb, "%d:%d:%d:%d:%s|", h.op, h.c, h.inv, h.ret, h.result)
@@ -84,12 +88,12 @@ func linearizable(hist []*histOp, finalA, finalB int, innerRuns map[int]int) (bo
 	for _, h := range hist {
 		fmt.Fprintf(&kb, "k%d,", innerRuns[h.c])
 	}
-	fmt.Fprintf(&kb, "%d,%d", finalA, finalB)
+	fmt.Fprintf(&kb, "%d,%d,%d", finalA, finalB, finalK)
 	key := kb.String()
 	if v, ok := linCache[key]; ok && v {
 		return true, ""
 	}
-	ok, why := linearizableUncached(hist, finalA, finalB, innerRuns)
+	ok, why := linearizableUncached(hist, finalA, finalB, finalK, innerRuns)
 	if len(linCache) > 200000 {
 		linCache = map[string]bool{}
 	}
@@ -97,33 +101,36 @@ func linearizable(hist []*histOp, finalA, finalB int, innerRuns map[int]int) (bo
 	return ok, why
 }
 
-func linearizableUncached(hist []*histOp, finalA, finalB int, innerRuns map[int]int) (bool, string) {
+func linearizableUncached(hist []*histOp, finalA, finalB, finalK int, innerRuns map[int]int) (bool, string) {
 	var ev []linEvent
 	for _, h := range hist {
 		ev = append(ev, linEvent{h.inv, h.ret, h.op, h.c, h.result})
 		if atomOps[h.op].inner {
 			target := -1 // increments b
-			if atomOps[h.op].name == "swap!-b-updates-a" {
+			switch atomOps[h.op].name {
+			case "swap!-b-updates-a":
 				target = -2
+			case "swap!-keeps-rest-args":
+				target = -3 // k := (c)
 			}
 			// the update function ran innerRuns times (observed through the trace builtin):
 			// that many separate increments of the other atom, each within the operation's interval
 			for k := 0; k < innerRuns[h.c]; k++ {
-				ev = append(ev, linEvent{h.inv, h.ret, target, 0, ""})
+				ev = append(ev, linEvent{h.inv, h.ret, target, h.c, ""})
 			}
 		}
 	}
-	if len(ev) <= 24 && linSearch(ev, finalA, finalB) {
+	if len(ev) <= 24 && linSearch(ev, finalA, finalB, finalK) {
 		return true, ""
 	}
 	var p []string
 	for _, h := range hist {
 		p = append(p, fmt.Sprintf("T%d %s [%d,%d] -> %s (update function ran %d times)", h.thread, atomOps[h.op].text(h.c), h.inv, h.ret, h.result, innerRuns[h.c]))
 	}
-	return false, strings.Join(p, "; ") + fmt.Sprintf("; final a=%d b=%d", finalA, finalB)
+	return false, strings.Join(p, "; ") + fmt.Sprintf("; final a=%d b=%d k=(%d)", finalA, finalB, finalK)
 }
 
-func linSearch(ev []linEvent, finalA, finalB int) bool {
+func linSearch(ev []linEvent, finalA, finalB, finalK int) bool {
 	n := len(ev)
 	type key struct {
 		mask uint32
@@ -133,7 +140,7 @@ func linSearch(ev []linEvent, finalA, finalB int) bool {
 	var rec func(mask uint32, st atomSt) bool
 	rec = func(mask uint32, st atomSt) bool {
 		if mask == 1<<uint(n)-1 {
-			return st.a == finalA && st.b == finalB
+			return st.a == finalA && st.b == finalB && st.k == finalK
 		}
 		k := key{mask, st}
 		if seen[k] {
@@ -160,6 +167,8 @@ func linSearch(ev []linEvent, finalA, finalB int) bool {
 				ns.b++
 			case -2:
 				ns.a++
+			case -3:
+				ns.k = ev[i].c
 			default:
 				var r string
 				ns, r = atomOps[ev[i].op].spec(st, ev[i].c, 0)
@@ -173,7 +182,7 @@ func linSearch(ev []linEvent, finalA, finalB int) bool {
 		}
 		return false
 	}
-	return rec(0, atomSt{1, 1})
+	return rec(0, atomSt{1, 1, 0})
 }
 
 func init() {
@@ -268,6 +277,9 @@ func init() {
 					st.a, st.b = &concurrent.Atom{Val: 1}, &concurrent.Atom{Val: 1}
 					st.scope.Set(types.Symbol{Val: "a"}, st.a)
 					st.scope.Set(types.Symbol{Val: "b"}, st.b)
+					st.k = &concurrent.Atom{Val: types.List{Val: []types.MalType{0}}}
+					st.scope.Set(types.Symbol{Val: "k"}, st.k)
+					st.k.Deref(context.Background())
 					// touch the atoms in setup mode so that their locks get schedule-independent ids
 					st.a.Deref(context.Background())
 					st.b.Deref(context.Background())
@@ -335,6 +347,12 @@ func init() {
 					st := state.(*c09state)
 					fa, _ := st.a.Val.(int)
 					fb, _ := st.b.Val.(int)
+					fk := -1 // anything but a one-element list of an int
+					if l, ok := st.k.Val.(types.List); ok && len(l.Val) == 1 {
+						if i, ok := l.Val[0].(int); ok {
+							fk = i
+						}
+					}
 					var obs []string
 					for _, h := range st.hist {
 						obs = append(obs, fmt.Sprintf("T%d:%s", h.thread, h.result))
@@ -343,14 +361,14 @@ func init() {
 						}
 					}
 					sort.Strings(obs)
-					o := strings.Join(obs, ",") + fmt.Sprintf(" a=%d b=%d", fa, fb)
+					o := strings.Join(obs, ",") + fmt.Sprintf(" a=%d b=%d k=%d", fa, fb, fk)
 					runs := map[int]int{}
 					for _, t := range tracer.Log {
 						if c, ok := t.(int); ok {
 							runs[c]++
 						}
 					}
-					if ok, why := linearizable(st.hist, fa, fb, runs); !ok {
+					if ok, why := linearizable(st.hist, fa, fb, fk, runs); !ok {
 						set := map[string]bool{}
 						for _, h := range st.hist {
 							set[atomOps[h.op].name] = true
@@ -368,7 +386,7 @@ func init() {
 		}
 		fam := &vf.Family{
 			Name:    "atom-scenarios",
-			Bounds:  fmt.Sprintf("all multisets of 2 threads x 1 op, 3 threads x 1 op, one op against a thread issuing three writes (bound 3; switching at the boundary between two operations of a thread is a free yield, not a preemption), (2 ops || 1 op) and, thorough, (2 ops || 2 ops) over %d atom operations on atoms a, b; per scenario all interleavings at lock operations and hook points of lib/concurrent up to preemption bound 2 (quick) / 3 (thorough), capped at 20000 (quick) / 200000 (thorough) executions per scenario", len(atomOps)),
+			Bounds:  fmt.Sprintf("all multisets of 2 threads x 1 op, 3 threads x 1 op, one op against a thread issuing three writes (bound 3; switching at the boundary between two operations of a thread is a free yield, not a preemption), (2 ops || 1 op) and, thorough, (2 ops || 2 ops) over %d atom operations on atoms a, b (and k, which holds what an update function kept of its rest arguments); per scenario all interleavings at lock operations and hook points of lib/concurrent up to preemption bound 2 (quick) / 3 (thorough), capped at 20000 (quick) / 200000 (thorough) executions per scenario", len(atomOps)),
 			Setup:   setup,
 			Timeout: 120 * time.Second,
 			N:       func(t string) int64 { tier = t; return int64(len(plansOf())) },
